@@ -19,7 +19,7 @@ NAME = "keep-unique"
 
 
 def run(ctx, out, tier):
-    vb = ctx.validate_body(NAME, inline=True)
+    vb = ctx.validate_body(NAME, inline=True, sugar=True)
     if vb is None:
         out.inst("C07.anchor", 0, 1)
         return meta()
@@ -76,7 +76,18 @@ def run(ctx, out, tier):
                         if t["k"] == "switch" and (util.op_place(t["op"]) or {}).get("l") == dl:
                             some_arm = util.switch_arms(vb, bj).get(1)
             if some_arm is None:
-                out.viol("C07.seen", "C07.seen|key-switch", ctx.where(vb), "could not find the branch on the extracted key")
+                # no Option-typed key variable (the lines without a key are filtered out before the
+                # scan): the insert must then be reached from every item the filtered iteration yields -
+                # nothing between the item and the insert may skip it
+                r2 = cfg.reach(util.switch_arms(vb, cfg.succ[next_bb][0]).get(1), avoid=(set(range(cfg.n)) - set(region)) | {ibi}) if cfg.succ[next_bb] else set()
+                skip = header in r2 or any(header in cfg.succ[x] for x in r2)
+                # (items dropped by the expanded filter / filter_map steps are lines without a key)
+                from_filter = all(vb.blocks[x].get("synthetic") or vb.blocks[x].get("closure_of") for x in r2 if header in cfg.succ[x] or x == header) if skip else True
+                if skip and not from_filter:
+                    out.viol("C07.seen", "C07.seen|skipped-key", ctx.where(vb),
+                             "there is a path through the line loop on which a key was extracted but not inserted into the seen-set: a later duplicate of it would be missed")
+                else:
+                    n_seen += 1
             else:
                 outside = (set(range(cfg.n)) - set(region)) | {ibi}
                 r2 = cfg.reach(some_arm, avoid=outside)
@@ -98,7 +109,7 @@ def run(ctx, out, tier):
     # ------------------------------------------------------------------ C07.key
     n_key = 0
     if key_local is not None:
-        labs = ctx.prov.read_local(vb, key_local, ("0", "0"))
+        labs = ctx.prov.read_operand(vb, inserts[0][1]["args"][1]) if inserts else ctx.prov.read_local(vb, key_local, ("0", "0"))   # the key is what is inserted
         where = ctx.where(vb)
         linelevel.key_calls_allowed(ctx, out, "C07.key", vb, labs, where, "the uniqueness key", linelevel.KEY_ALLOWED)
         if P.has_call(labs, r"<impl str>::trim$") and P.has_call(labs, r"<impl str>::lines$"):
@@ -124,6 +135,11 @@ def run(ctx, out, tier):
                     for br, vals, e in util.guards(ctx, vb, d[1]):
                         if re.search(r"str::is_empty\(str::trim\(", render(e, 300)) and 0 not in vals:
                             ok = True
+        if not ok and inserts:
+            # ... or the insert itself is only reached for a non-blank line
+            for br, vals, e in util.guards(ctx, vb, inserts[0][0]):
+                if re.search(r"str::is_empty\(str::trim\(", render(e, 300)) and vals == {0}:
+                    ok = True
         if ok:
             n_key += 1
         else:
